@@ -5,6 +5,11 @@ routers, FIFO links, heartbeats; exhaustive MC for N = 2, 3 and MUST-FAIL config
 generator: configurations x churn histories inside the sound premise), NetTrace (evaluates P_C01_ExactlyOnce and
 P_C01_NoDup on the deliveries of N REAL nodes replayed by harness/drivers/c01).
 
+Two code-level dimensions have no counterpart in Net.tla: an unrelated second topic "U" (roles taken before those on the
+topic under test, traffic in every batch, judged per topic - the model's topics are independent by construction) and
+long-running streams (directed hubs at D + Dlazy with default parameters and > 2 virtual minutes of >= 1 KiB messages,
+judged per message in quiet propagation windows).
+
 Verdict: only NetTrace results on real deliveries (or a reproducible library panic) become VIOLATIONs."""
 import concurrent.futures as cf
 import itertools, json, os, random, re, shutil, subprocess, time
@@ -155,10 +160,11 @@ def reach(edges, allowed, start):
     return seen
 
 
-def relay_cut(edges, subs, rel, pubs):
-    """Is there a relay-only node whose removal separates a publisher from a subscriber?"""
+def relay_cut_vertices(edges, subs, rel, pubs):
+    """Relay-only nodes whose removal separates a publisher from a subscriber."""
     n = len(subs)
     ov = {i for i in range(1, n + 1) if subs[i - 1] > 0 or rel[i - 1] > 0}
+    out = set()
     for r in ov:
         if subs[r - 1] > 0 or r in pubs:
             continue
@@ -168,8 +174,12 @@ def relay_cut(edges, subs, rel, pubs):
             full = reach(edges, ov, start & ov)
             cut = reach(edges, rest, start & rest)
             if any(subs[q - 1] > 0 and q in full and q not in cut for q in rest if q != p):
-                return True
-    return False
+                out.add(r)
+    return out
+
+
+def relay_cut(edges, subs, rel, pubs):
+    return bool(relay_cut_vertices(edges, subs, rel, pubs))
 
 
 def structural_tags(s):
@@ -255,7 +265,81 @@ def decorate(s, rng, thorough):
             after_batch = True
     out += batch(elig[-1], True)
     params = "default" if rng.random() < (0.1 if thorough else 0.04) else "small"
-    return {"n": s["n"], "kinds": s["kinds"], "edges": s["edges"], "roles": roles, "ops": out, "params": params, "src": s.get("src", "")}
+    d = {"n": s["n"], "kinds": s["kinds"], "edges": s["edges"], "roles": roles, "ops": out, "params": params, "src": s.get("src", "")}
+    # the graph first, the roles afterwards: interest travels in announcements instead of hello packets
+    if rng.random() < 0.3:
+        d["late_roles"] = True
+    # an unrelated second topic U: static roles taken BEFORE the roles on the topic under test, traffic in every batch
+    edges, subs, rel = cfg_after(s, len(ops))
+    cutv = relay_cut_vertices(edges, subs, rel, elig[-1])
+    if rng.random() < 0.35 or (cutv and rng.random() < 0.8):
+        ur = [rng.choice(["none", "none", "sub", "sub", "relay"]) for _ in range(s["n"])]
+        for r in cutv:                      # a relay-only cut vertex that already subscribes to something else
+            if rng.random() < 0.9:
+                ur[r - 1] = "sub"
+                if roles[r - 1] == "relay" and rng.random() < 0.85:
+                    d["late_roles"] = True  # ... and whose relay is announced, not carried by the hello packet
+        if all(u == "none" for u in ur):
+            ur[rng.randrange(s["n"])] = "sub"
+        d["uroles"] = ur
+    # a long history instead of single batches: one large (>= IDONTWANT threshold) message per heartbeat
+    if s["n"] >= 3 and rng.random() < (0.05 if thorough else 0.03):
+        ops2, k = [], 0
+        while k < len(out):
+            if out[k]["op"] == "pub":
+                ps = []
+                while k < len(out) and out[k]["op"] == "pub":
+                    ps.append(out[k]["a"])
+                    k += 1
+                ops2.append({"op": "stream", "a": 14, "b": 1500, "ps": ps, "gap": "l"})
+            else:
+                ops2.append(out[k])
+                k += 1
+        d["ops"] = ops2
+    return d
+
+
+def long_family(ctx, rng):
+    """Directed LONG-RUNNING histories (not from GenNet): hubs at the degree bound D + Dlazy, one message above the IDONTWANT
+    threshold per heartbeat for >= 2 virtual minutes, so that prune backoffs expire, are swept and the hub's mesh is re-drawn
+    while traffic flows; and a path whose late link stays outside every mesh, with streams between the churn steps."""
+    def star(leaves, params, count, hub_role="sub", flood=(), uroles=None, gap="h"):
+        n = leaves + 1
+        kinds = ["gossip"] * n
+        for f in flood:
+            kinds[f - 1] = "flood"
+        d = {"n": n, "kinds": kinds, "edges": [[1, i] for i in range(2, n + 1)], "roles": [hub_role] + ["sub"] * leaves, "params": params,
+             "src": "long-star%d-%s" % (leaves, params), "ops": [{"op": "stream", "a": count, "b": 1500, "ps": list(range(2, n + 1)), "gap": gap}]}
+        if uroles:
+            d["uroles"] = uroles
+        return d
+    fam = [star(12, "default", 130)]                    # D + Dlazy = 12 leaves, redraw at ticks 75/76
+    if ctx.thorough:
+        fam.append(star(12, "default", 130, hub_role="relay"))
+        fam.append(star(12, "default", 130, uroles=["sub"] + [rng.choice(["none", "sub"]) for _ in range(12)]))
+        fam.append(star(12, "default", 150, flood=(12, 13)))
+        fam.append(star(11, "default", 130))                # Dlo + Dlazy: everybody stays in the mesh
+        fam.append(star(4, "small", 80))                    # D + Dlazy = 4 with the small parameters: a redraw every 15 ticks
+        fam.append(star(4, "small", 80, hub_role="relay"))
+        fam.append(star(3, "small", 80))
+        # two hubs
+        fam.append({"n": 14, "kinds": ["gossip"] * 14, "edges": [[1, 2]] + [[1, i] for i in range(3, 9)] + [[2, i] for i in range(9, 15)],
+                    "roles": ["sub"] * 14, "params": "default", "src": "long-twohubs",
+                    "ops": [{"op": "stream", "a": 130, "b": 1500, "ps": [3, 9, 4, 10, 1, 2], "gap": "h"}]})
+    # a relay-only cut vertex that already subscribes to the other topic when its relay is announced (by an operation, or
+    # because the roles are taken after the graph was built), all router mixes
+    for kinds in (["flood"] * 3, ["gossip"] * 3, ["flood", "gossip", "random"], ["gossip", "flood", "gossip"], ["random", "random", "gossip"]):
+        base = {"n": 3, "kinds": kinds, "edges": [[1, 2], [2, 3]], "params": "small", "src": "directed-relaycut", "uroles": ["none", "sub", "sub"]}
+        pubs = [{"op": "pub", "a": 1, "b": 0, "gap": "l"}, {"op": "pub", "a": 3, "b": 0, "gap": "l"}]
+        fam.append(dict(base, roles=["sub", "relay", "sub"], late_roles=True, ops=pubs))
+        fam.append(dict(base, roles=["sub", "none", "sub"], ops=[{"op": "relay", "a": 2, "b": 0, "gap": rng.choice(["s", "h", "l"])}] + pubs))
+    # a path R - Y - W - X whose late link Y - X stays outside both meshes (redundant IHAVEs for a while), then W loses Y
+    for params, cnt in ((("small", 16),) if not ctx.thorough else (("small", 16), ("small", 30), ("default", 16))):
+        fam.append({"n": 4, "kinds": ["gossip"] * 4, "edges": [[1, 2], [2, 3], [3, 4]], "roles": ["sub"] * 4, "params": params, "src": "long-path",
+                    "ops": [{"op": "stream", "a": cnt, "b": 1500, "ps": [1], "gap": "l"}, {"op": "conn", "a": 2, "b": 4, "gap": "s"},
+                            {"op": "stream", "a": cnt, "b": 1500, "ps": [1, 4], "gap": "l"}, {"op": "disc", "a": 2, "b": 3, "gap": "s"},
+                            {"op": "stream", "a": cnt, "b": 1500, "ps": [1, 3], "gap": "l"}]})
+    return fam
 
 
 STRATA = ["relaycut", "fanoutpub", "nonmember_pub", "gossip_flood", "gossip_random", "randomsub", "self", "unsub_resub", "disc_reconn", "bridge"]
@@ -348,8 +432,9 @@ def eager_unreached(c):
     return need
 
 
-def batch_tags(c, oplines):
+def batch_tags(c, oplines, scn=None, r=None, ru=None):
     tags = set()
+    scn, r, ru = scn or {}, r or {}, ru or {}
     n, kinds = len(c["kinds"]), c["kinds"]
     edges = {tuple(sorted(e)) for e in c["edges"]}
     subs = [len(x) for x in c["live"]]
@@ -397,11 +482,37 @@ def batch_tags(c, oplines):
             tags.add("disc_reconn")
     if c["params"] == "default":
         tags.add("default_params")
+    ur = scn.get("uroles")
+    if ur:
+        if ru.get("verdict") == "ok":
+            tags.add("other_topic")          # both topics carried traffic and both were judged
+        # a relay-only cut vertex that subscribed to the other topic BEFORE its relay was announced (by an operation, or
+        # because the roles were taken after the graph had been built)
+        announced = {o["a"] for o in oplines if o["k"] < c["k"] and o.get("ok") and o["op"] == "relay"}
+        for v in relay_cut_vertices(edges, subs, rel, pubs):
+            if ur[v - 1] == "sub" and (v in announced or scn.get("late_roles")):
+                tags.add("relay_after_other_sub")
+    if scn.get("late_roles"):
+        tags.add("late_roles")
+    if c.get("stream"):
+        tags.add("stream")
+        ev = sorted(e[0] for e in c["meshev"] if e[1] == 1)
+        ts = [p["t"] for p in c["pubs"]]
+        inside = [e for e in ev if ts and ts[0] < e < ts[-1]]
+        if inside and r.get("njudged", 0) >= 20:
+            # after the last re-draw some subscriber still depended on gossip (a gossipsub topic peer outside its mesh)
+            late = [p for p in c["pubs"] if p["t"] > inside[-1]]
+            dep = any(any(kinds[i] == "gossip" and p["joined"][i] and set(x for x in p["views"][i] if kinds[x - 1] == "gossip") - set(p["mesh"][i])
+                          for i in range(n)) for p in late[-5:])
+            if len(late) >= 10 and dep and c.get("iwant", 0) > 0:
+                tags.add("long_redraw")
+        if c["pubs"] and len(c["pubs"][0].get("m", "")) and c["tq"] - c["t"] >= 120000:
+            tags.add("two_minutes")
     return tags
 
 
 OBLIGATIONS = ["relaycut", "fanoutpub", "nonmember_pub", "gossip_flood", "randomsub", "ihave_needed", "unsub_resub", "disc_reconn",
-               "self", "two_subs"]
+               "self", "two_subs", "other_topic", "relay_after_other_sub", "late_roles", "long_redraw"]
 
 
 # ----------------------------------------------------------------------------- main
@@ -499,6 +610,9 @@ def run(ctx):
             d = decorate(s, rng, ctx.thorough)
             d["gid"] = len(scns)
             scns.append(d)
+        for d in long_family(ctx, rng):
+            d["gid"] = len(scns)
+            scns.append(d)
         vlib.write_ndjson(os.path.join(ctx.work, "scenarios.ndjson"), scns)
         ctx.log("replaying %d scenarios (exhaustive: %s)" % (len(scns), exhaustive))
 
@@ -527,7 +641,7 @@ def run(ctx):
         chunks, cur = [], []
         for gid in sorted(bygid):
             cur += bygid[gid]
-            if len(cur) >= (3000 if ctx.thorough else 1500):
+            if len(cur) >= (3000 if ctx.thorough else 1500) or sum(len(x.get("deliv", ())) for x in cur) > 60000:
                 chunks.append(cur)
                 cur = []
         if cur:
@@ -556,7 +670,7 @@ def run(ctx):
             res_by[(x["scn"], x["k"])] = x
 
     # ---- stage E: verdict and coverage
-    nchecks = nok = ndisc = evals = 0
+    nchecks = nok = ndisc = evals = nok_u = nstream_msgs = 0
     disc_why = {}
     tags_hit, samples, nontrivial = {}, [], set()
     drift = 0
@@ -584,35 +698,47 @@ def run(ctx):
                 continue
             nchecks += 1
             c["params"] = scn["params"]
-            r = res_by.get((gid, c["k"]))
-            if r is None:
+            rr = res_by.get((gid, c["k"]))
+            if rr is None:
                 raise vlib.Inconclusive("no verdict for batch k=%d of scenario %d" % (c["k"], gid))
-            if r["drift"]:
+            r, ru = rr["t"], rr["u"]
+            if r["drift"] or ru.get("drift"):
                 drift += 1
-            if r["verdict"] == "badlog":
+            if r["verdict"] == "badlog" or ru["verdict"] == "badlog":
                 raise vlib.Inconclusive("driver log inconsistent with the tracked configuration (scenario %d, k=%d)" % (gid, c["k"]))
+            # the unrelated second topic is judged by the same predicates
+            if ru["verdict"] == "viol":
+                report(ctx, scn, c["u"], ru, c, topic="U")
+            elif ru["verdict"] == "ok":
+                nok_u += 1
+                evals += sum(1 for d in c["u"]["deliv"] if d["m"] in {p["m"] for p in c["u"]["pubs"]})
             if r["verdict"] == "discard":
                 ndisc += 1
-                why = "+".join(w for w, ok in (("cfg", r["premcfg"]), ("env", r["premenv"]), ("settled", r["premsettled"])) if not ok)
+                why = "+".join(w for w, ok in (("cfg", r["premcfg"]), ("env", r["premenv"]), ("settled", r["premsettled"])) if not ok) or "no-message-in-a-quiet-window"
                 disc_why[why] = disc_why.get(why, 0) + 1
                 continue
             if r["verdict"] == "viol":
-                report(ctx, scn, c, r)
+                report(ctx, scn, c, r, c)
                 continue
             nok += 1
-            evals += sum(1 for d in c["deliv"] if d["m"] in {p["m"] for p in c["pubs"]})
-            tg = batch_tags(c, oplines)
+            if c.get("stream"):
+                nstream_msgs += r["njudged"]
+                evals += r["njudged"] * sum(len(x) for x in c["live"])
+            else:
+                evals += sum(1 for d in c["deliv"] if d["m"] in {p["m"] for p in c["pubs"]})
+            tg = batch_tags(c, oplines, scn, r, ru)
             for t in tg:
                 tags_hit[t] = tags_hit.get(t, 0) + 1
             if any(len(c["live"][q]) > 0 and q + 1 != p["n"] for p in c["pubs"] for q in range(scn["n"])):
-                nontrivial.add(json.dumps([scn["kinds"], scn["roles"], scn["edges"], [[o["op"], o["a"], o["b"]] for o in scn["ops"]]]))
-            if len(samples) < 3 and ("ihave_needed" in tg or "relaycut" in tg or len(samples) == 0):
+                nontrivial.add(json.dumps([scn["kinds"], scn["roles"], scn["edges"], scn.get("uroles"), [[o["op"], o["a"], o["b"]] for o in scn["ops"]]]))
+            if len(samples) < 3 and not c.get("stream") and ("ihave_needed" in tg or "relaycut" in tg or len(samples) == 0):
                 samples.append({"scenario": {k: scn[k] for k in ("n", "kinds", "roles", "edges", "ops", "params")},
                                 "batch": {k: c[k] for k in ("t", "pubs", "live", "views", "mesh", "fanout1", "iwant", "deliv")},
                                 "tags": sorted(tg)})
     if drift:
         ctx.notes.append("MODEL-DRIFT: in %d batches some node's ListPeers/GetTopics differed from the model's `known` (information only)" % drift)
-    ctx.log("batches: %d judged ok, %d discarded %s, %d violating; coverage %s" % (nok, ndisc, disc_why, len(ctx.violations), tags_hit))
+    ctx.log("batches: %d judged ok (+%d on the second topic; %d stream messages), %d discarded %s, %d violating; coverage %s" % (
+        nok, nok_u, nstream_msgs, ndisc, disc_why, len(ctx.violations), tags_hit))
     if not ctx.violations:
         miss = [t for t in OBLIGATIONS if not tags_hit.get(t)]
         if miss:
@@ -625,7 +751,8 @@ def run(ctx):
                    "some message had to reach a subscription on a node other than its publisher; distinct by (kinds, roles, graph, operation list) "
                    "after relabelling (N<=3)",
            "exhaustive": all(exhaustive.values()), "exhaustive_by_generator": exhaustive, "scenarios": len(scns),
-           "batches": {"total": nchecks, "judged": nok, "discarded": ndisc, "discard_reasons": disc_why},
+           "batches": {"total": nchecks, "judged": nok, "judged_second_topic": nok_u, "judged_stream_messages": nstream_msgs,
+                       "discarded": ndisc, "discard_reasons": disc_why},
            "obligations": {t: tags_hit.get(t, 0) for t in OBLIGATIONS}, "other_coverage": {t: v for t, v in tags_hit.items() if t not in OBLIGATIONS},
            "mc": mcinfo}
     return vlib.finish(ctx, LEVEL, cov, [
@@ -636,11 +763,17 @@ def run(ctx):
         "publisher in or adjacent to the overlay; churn = connect / whole-connection disconnect / subscribe / cancel / relay / relay-cancel",
         "simnet links (1 ms latency, no loss); every node created at the same instant (heartbeats in phase); quiescence wait = 2N + HistoryGossip + 2 heartbeats",
         "N <= 3 configurations are enumerated by TLC and sampled by VERIF_SEED above the cap; N = 4, 5 are TLC -simulate samples",
-        "timing of churn steps, which eligible publishers form a batch, the two-subscription variant and the parameter family are seeded choices of the orchestrator"])
+        "timing of churn steps, which eligible publishers form a batch, the two-subscription variant, the parameter family, hello-vs-announce construction "
+        "order and the roles on the unrelated second topic U are seeded choices of the orchestrator; the second topic exists at code level only (in Net.tla "
+        "topics are independent by construction: a second topic would be an independent copy of the same state)",
+        "long-running streams (directed family: hubs at D+Dlazy, a late link outside the meshes; plus a seeded fraction of generated scenarios) are judged PER "
+        "MESSAGE: at its publish instant every joined gossipsub node has <= Dlazy gossipsub topic peers outside its mesh and no GRAFT/PRUNE happens anywhere "
+        "for N + HistoryGossip + 1 heartbeats afterwards; this admits hubs whose backoffs are pending (a weaker reading of 'settled' than for single batches)"])
 
 
-def report(ctx, scn, c, r):
-    kinds = c["kinds"]
+def report(ctx, scn, c, r, line, topic="T"):
+    """c = the observations of the topic (the check line itself for T, line["u"] for U)."""
+    kinds = line["kinds"]
     pubs = {p["m"]: p["n"] for p in c["pubs"]}
     intr = lambda i: len(c["live"][i - 1]) > 0 or c["irelays"][i - 1] > 0
     role = lambda i: "sub" if len(c["live"][i - 1]) > 0 else "relay" if c["irelays"][i - 1] > 0 else "none"
@@ -653,7 +786,7 @@ def report(ctx, scn, c, r):
             p = pubs.get(d["m"], 0)
             live = d["n"] and d["s"] in c["live"][d["n"] - 1]
             kind = "spurious" if d["m"] == "?" else "duplicate" if d["c"] > 1 else "loss" if live else "delivered-to-cancelled"
-            sig = {"kind": kind, "publisher": ("%s/%s" % (kinds[p - 1], role(p))) if p else "?",
+            sig = {"kind": kind, "topic": topic, "stream": bool(line.get("stream")), "publisher": ("%s/%s" % (kinds[p - 1], role(p))) if p else "?",
                    "victim": ("%s/%s" % (kinds[d["n"] - 1], "own" if d["n"] == p else "remote")) if d["n"] else "?",
                    "second_subscription": bool(d["s"]) and not d["s"].endswith(".1") and kind == "loss" and
                    any(x["s"].endswith(".1") and x["n"] == d["n"] and x["m"] == d["m"] and x["c"] == 1 for x in c["deliv"])}
@@ -663,10 +796,12 @@ def report(ctx, scn, c, r):
             done.add(key)
             drift = " [ListPeers differs from the expected interest view on nodes %s]" % r["drift"] if r["drift"] else ""
             vlib.add_violation(ctx, pred, sig,
-                               "%s of message %s (published by node %s %s) at node %s subscription %s: delivered %d time(s); kinds=%s edges=%s live=%s relays=%s%s" % (
-                                   kind, d["m"], p, kinds[p - 1] if p else "?", d["n"], d["s"], d["c"], kinds, c["edges"], c["live"], c["irelays"], drift),
-                               {"scenario": {k: scn[k] for k in ("n", "kinds", "roles", "edges", "ops", "params")},
-                                "check_line": {k: v for k, v in c.items() if k != "log"}, "verdict": r,
+                               "%s of message %s%s (published by node %s %s) at node %s subscription %s: delivered %d time(s); kinds=%s edges=%s live=%s relays=%s%s%s" % (
+                                   kind, d["m"], "" if topic == "T" else " on the second topic", p, kinds[p - 1] if p else "?", d["n"], d["s"], d["c"], kinds,
+                                   line["edges"], c["live"], c["irelays"], (" uroles=%s" % scn["uroles"]) if scn.get("uroles") else "", drift),
+                               {"scenario": {k: scn[k] for k in ("n", "kinds", "roles", "edges", "ops", "params", "uroles", "late_roles") if k in scn},
+                                "check_line": {k: v for k, v in line.items() if k not in ("log", "pubs", "deliv")} if line.get("stream") else
+                                              {k: v for k, v in line.items() if k != "log"}, "verdict": {k: (v if k not in ("bad", "dups") else v[:40]) for k, v in r.items()},
                                 "how": "write the scenario object as one line to a file and run harness/drivers/c01 TestC01Replay with VERIF_IN/VERIF_OUT (VERIF_C01_DEBUG=1 adds the wire log)"})
 
 
